@@ -44,244 +44,43 @@ theorem IShape.swap {st : Heap} {self : NTT_Goldilocks} {a a2 : Ptr} {N NC K : N
   obtain ⟨h1, h2, h3, h4, h5, h6, h7, h8, h9, h10, h11⟩ := h
   exact ⟨h1, h2, h3, h5, h4, fun e => h6 e.symm, h7, h8, h9, h10, h11⟩
 
-/-! ### one butterfly: the loop over the columns -/
+/-- one access `p[i]`, extents read through a heap of the same shape, arithmetic by `bv_side` -/
+macro "inb_close " h:term : tactic =>
+  `(tactic| (unfold Heap.InB; simp only [Heap.ext_set, Heap.ext_copy, Heap.ext_zero, ($h).2]; bv_side))
 
-theorem bfly_safe (a : Ptr) (o1 o2 NC : Nat) (w : BitVec 64) (st : Heap) (h1 : a.off + o1 + NC ≤ st.ext a.blk)
-    (h2 : a.off + o2 + NC ≤ st.ext a.blk) (g1 : o1 + NC < 2 ^ 64) (g2 : o2 + NC < 2 ^ 64) (k : Nat) (hk : k < NC) :
-    NTT_NTT_iters_loop1.Safe a (bv o1) (bv o2) w k st := by
-  unfold NTT_NTT_iters_loop1.Safe
-  zeta_goal
-  have e1 : (bv o1 + BitVec.ofNat 64 k).toNat = o1 + k := by
-    show (bv o1 + bv k).toNat = _
-    rw [bv_add, bv_toNat _ (by omega)]
-  have e2 : (bv o2 + BitVec.ofNat 64 k).toNat = o2 + k := by
-    show (bv o2 + bv k).toNat = _
-    rw [bv_add, bv_toNat _ (by omega)]
-  rw [e1, e2]
-  have i1 : st.InB a (o1 + k) := InB_base (by omega)
-  have i2 : st.InB a (o2 + k) := InB_base (by omega)
-  exact ⟨i1, i2, i2, i1.same (Heap.Same.set _ _ _ _)⟩
-
-/-! ### one butterfly of one stage: the offsets of the two rows, the index of the twiddle factor in `roots` -/
-
-theorem stageStep_safe (st : Heap) (self : NTT_Goldilocks) (a : Ptr) (S si b B NC RS RE RB N i : Nat)
-    (hN30 : N ≤ 2 ^ 30) (hbB : b * B ≤ N) (hiN : i ≤ N) (hNNC : N * NC < 2 ^ 64)
-    (hrow : b * B + i / 2 ^ si * (2 ^ si * 2) + i % 2 ^ si + 2 ^ si < N)
-    (hRB : RB ≤ 2 ^ 30) (hRS : RS ≤ RE) (hRE : RE ≤ 30) (hS1 : 1 ≤ S) (hSs : S + si ≤ self.s.toNat) (hos : self.s.toNat ≤ 32)
-    (ha : a.off + N * NC ≤ st.ext a.blk) (hroots : self.roots.off + 2 ^ self.s.toNat ≤ st.ext self.roots.blk) :
-    NTT_NTT_iters_loop2.Safe (bv NC) self a (bv S) (bv RS) (bv RE) (bv RB) (bv (2 ^ (RE - RS) - 1)) (bv B) b si
-      (bv (2 ^ (S + si) / 2)) (bv (2 ^ si)) (bv (2 ^ si * 2)) i st := by
-  have hsi : si < 64 := by omega
-  have h2si : 2 ^ si < 2 ^ 64 := Nat.pow_lt_pow_right (by omega) hsi
-  have h2si' : 2 ^ si ≤ N := by omega
-  have hi64 : i < 2 ^ 64 := by omega
-  have hbB64 : b * B < 2 ^ 64 := by omega
-  have ht : RE - RS < 64 := by omega
-  -- the twiddle index (as in the bridge theorem `stageStep_body`)
-  let j0 := b * B / 2 + i
-  have hj0 : j0 ≤ 2 ^ 31 := by
-    have : b * B / 2 ≤ N := Nat.le_trans (Nat.div_le_self _ _) hbB
-    show b * B / 2 + i ≤ 2 ^ 31
-    omega
-  let j1 := j0 % 2 ^ (RE - RS) * RB + j0 / 2 ^ (RE - RS)
-  have hj1 : j1 < 2 ^ 62 := by
-    have h1 : j0 % 2 ^ (RE - RS) ≤ 2 ^ 31 := Nat.le_trans (Nat.mod_le _ _) hj0
-    have h2 : j0 / 2 ^ (RE - RS) ≤ 2 ^ 31 := Nat.le_trans (Nat.div_le_self _ _) hj0
-    have h3 : j0 % 2 ^ (RE - RS) * RB ≤ 2 ^ 31 * 2 ^ 30 := Nat.mul_le_mul h1 hRB
-    show j0 % 2 ^ (RE - RS) * RB + j0 / 2 ^ (RE - RS) < 2 ^ 62
-    omega
-  have hM : 2 ^ (S + si) / 2 < 2 ^ 64 := by
-    have : 2 ^ (S + si) < 2 ^ 64 := Nat.pow_lt_pow_right (by omega) (by omega)
-    omega
-  have hhalf : 2 ^ (S + si) / 2 = 2 ^ (S + si - 1) := by
-    have : 2 ^ (S + si) = 2 ^ (S + si - 1) * 2 := by
-      rw [← Nat.pow_succ]; congr 1; omega
-    rw [this, Nat.mul_div_cancel _ (by omega)]
-  have hJlt : j1 % (2 ^ (S + si) / 2) < 2 ^ (S + si) / 2 := by
-    apply Nat.mod_lt
-    rw [hhalf]; exact Nat.pow_pos (by omega)
-  have ej : (((BitVec.ofNat 64 b * bv B / 2#64 + BitVec.ofNat 64 i) &&& bv (2 ^ (RE - RS) - 1)) * bv RB +
-      ((BitVec.ofNat 64 b * bv B / 2#64 + BitVec.ofNat 64 i) >>> (bv RE - bv RS).toNat)) % bv (2 ^ (S + si) / 2) =
-      bv (j1 % (2 ^ (S + si) / 2)) := by
-    show (((bv b * bv B / 2#64 + bv i) &&& bv (2 ^ (RE - RS) - 1)) * bv RB +
-      ((bv b * bv B / 2#64 + bv i) >>> (bv RE - bv RS).toNat)) % bv (2 ^ (S + si) / 2) = _
-    rw [bv_two, bv_mul, bv_div _ _ hbB64 (by omega), bv_add, bv_sub RE RS hRS (by omega), bv_toNat _ (by omega),
-      bv_mask _ _ (by show j0 < 2 ^ 64; omega) ht, bv_shr _ _ (by show j0 < 2 ^ 64; omega), bv_mul, bv_add,
-      bv_mod _ _ (by show j1 < 2 ^ 64; omega) hM]
-  have edp : (BitVec.setWidth 32 (bv (S + si))).toNat = S + si := by
+/-- the generated `root(domainPow, idx)` reads inside `roots` (2^s words) -/
+theorem root_safe (st : Heap) (self : NTT_Goldilocks) (dp j : Nat) (hdp : dp ≤ self.s.toNat) (hs32 : self.s.toNat ≤ 32)
+    (hj : j < 2 ^ dp) (hroots : self.roots.off + 2 ^ self.s.toNat ≤ st.ext self.roots.blk) :
+    NTT_root.Safe st self (BitVec.setWidth 32 (bv dp)) (bv j) := by
+  have hp : 2 ^ dp ≤ 2 ^ 32 := Nat.pow_le_pow_right (by omega) (by omega)
+  have edp : (BitVec.setWidth 32 (bv dp)).toNat = dp := by
     rw [BitVec.toNat_setWidth, bv_toNat _ (by omega)]
     exact Nat.mod_eq_of_lt (by omega)
-  have eki : BitVec.ofNat 64 b * bv B + BitVec.ofNat 64 i / bv (2 ^ si) * bv (2 ^ si * 2) =
-      bv (b * B + i / 2 ^ si * (2 ^ si * 2)) := by
-    show bv b * bv B + bv i / bv (2 ^ si) * bv (2 ^ si * 2) = _
-    rw [bv_mul, bv_div _ _ hi64 h2si, bv_mul, bv_add]
-  have eji : BitVec.ofNat 64 i % bv (2 ^ si) = bv (i % 2 ^ si) := bv_mod _ _ hi64 h2si
-  unfold NTT_NTT_iters_loop2.Safe
-  zeta_goal
-  simp only [eki, eji, ej]
-  simp only [bv_add, bv_mul]
-  refine ⟨?_, ?_⟩
-  · -- roots[j << (s - domainPow)]
-    unfold NTT_root.Safe
-    have hJ64 : j1 % (2 ^ (S + si) / 2) < 2 ^ 64 := by omega
-    have h1 : (self.s - BitVec.setWidth 32 (bv (S + si))).toNat = self.s.toNat - (S + si) := by
-      rw [BitVec.toNat_sub, edp]
-      have := self.s.isLt
-      omega
-    have hle : j1 % (2 ^ (S + si) / 2) * 2 ^ (self.s.toNat - (S + si)) < 2 ^ self.s.toNat := by
-      have h2 : 2 ^ (S + si) * 2 ^ (self.s.toNat - (S + si)) = 2 ^ self.s.toNat := by
-        rw [← Nat.pow_add]; congr 1; omega
-      have h1' : 2 ^ (S + si) / 2 ≤ 2 ^ (S + si) := Nat.div_le_self _ _
-      have hp : 0 < 2 ^ (self.s.toNat - (S + si)) := Nat.pow_pos (by omega)
-      calc j1 % (2 ^ (S + si) / 2) * 2 ^ (self.s.toNat - (S + si))
-          < 2 ^ (S + si) / 2 * 2 ^ (self.s.toNat - (S + si)) := Nat.mul_lt_mul_of_pos_right hJlt hp
-        _ ≤ 2 ^ (S + si) * 2 ^ (self.s.toNat - (S + si)) := Nat.mul_le_mul_right _ h1'
-        _ = 2 ^ self.s.toNat := h2
-    have h3 : 2 ^ self.s.toNat ≤ 2 ^ 32 := Nat.pow_le_pow_right (by omega) hos
-    have h2 : (bv (j1 % (2 ^ (S + si) / 2)) <<< (self.s.toNat - (S + si))).toNat =
-        j1 % (2 ^ (S + si) / 2) * 2 ^ (self.s.toNat - (S + si)) := by
-      rw [BitVec.toNat_shiftLeft, Nat.shiftLeft_eq, bv_toNat _ hJ64]
-      exact Nat.mod_eq_of_lt (by omega)
-    rw [h1, h2]
-    exact InB_base (by omega)
-  · have h1 := mul_le_of_lt _ _ NC hrow
-    have h2 : (b * B + i / 2 ^ si * (2 ^ si * 2) + i % 2 ^ si) * NC ≤
-        (b * B + i / 2 ^ si * (2 ^ si * 2) + i % 2 ^ si + 2 ^ si) * NC := Nat.mul_le_mul_right _ (by omega)
-    rw [bv_toNat NC (by
-      have : NC ≤ N * NC := Nat.le_mul_of_pos_left _ (by omega)
-      omega)]
-    refine Loop.RangeAll.of_same (fun k s _ => iters_loop1_same _ _ _ _ k s) (fun k st' _ hk hst => ?_)
-    exact bfly_safe a _ _ NC _ st' (by rw [hst.2]; omega) (by rw [hst.2]; omega) (by omega) (by omega) k hk
-
-/-! ### one stage of one batch, all stages of one batch -/
-
-theorem stage_safe (st : Heap) (self : NTT_Goldilocks) (a : Ptr) (S si b B M NC RS RE RB N : Nat)
-    (hN30 : N ≤ 2 ^ 30) (hB : B = M * (2 ^ si * 2)) (hbB : b * B + B ≤ N) (hNNC : N * NC < 2 ^ 64)
-    (hRB : RB ≤ 2 ^ 30) (hRS : RS ≤ RE) (hRE : RE ≤ 30) (hS1 : 1 ≤ S) (hSs : S + si ≤ self.s.toNat) (hos : self.s.toNat ≤ 32)
-    (hS30 : S + si ≤ 30)
-    (ha : a.off + N * NC ≤ st.ext a.blk) (hroots : self.roots.off + 2 ^ self.s.toNat ≤ st.ext self.roots.blk) :
-    NTT_NTT_iters_loop3.Safe (bv NC) self a (bv S) (bv RS) (bv RE) (bv RB) (bv (2 ^ (RE - RS) - 1)) (bv B) b si st := by
-  have hU : 0 < 2 ^ si := Nat.pow_pos (by omega)
-  have hB64 : B < 2 ^ 64 := by omega
-  have e1 : I32.toU64 (I32.shl (1 : Int) (bv S + BitVec.ofNat 64 si).toNat) = bv (2 ^ (S + si)) := by
-    show I32.toU64 (I32.shl (1 : Int) (bv S + bv si).toNat) = _
-    rw [bv_add, bv_toNat _ (by omega), shl_one _ hS30]
-  have e2 : bv (2 ^ (S + si)) >>> 1 = bv (2 ^ (S + si) / 2) := by
-    rw [bv_shr _ _ (Nat.pow_lt_pow_right (by omega) (by omega))]; rfl
-  have e3 : I32.toU64 (I32.shl (1 : Int) si) = bv (2 ^ si) := shl_one _ (by omega)
-  have e4 : (bv B >>> 1).toNat = B / 2 := by
-    rw [bv_shr _ _ hB64, bv_toNat _ (by omega)]; rfl
-  unfold NTT_NTT_iters_loop3.Safe
-  zeta_goal
-  simp only [e1, e2, e3, e4, bv_two, bv_mul]
-  refine Loop.RangeAll.of_same (fun i s _ => iters_loop2_same _ _ _ _ _ _ _ _ _ _ _ _ _ _ i s) (fun i st' _ hi hst => ?_)
-  have hiM : i < M * 2 ^ si := by
-    have : B / 2 = M * 2 ^ si := by
-      rw [hB, ← Nat.mul_assoc, Nat.mul_div_cancel _ (by omega)]
+  have h1 : (self.s - BitVec.setWidth 32 (bv dp)).toNat = self.s.toNat - dp := by
+    rw [BitVec.toNat_sub, edp]
+    have := self.s.isLt
     omega
-  have hr := row_lt (2 ^ si) M i hU hiM
-  exact stageStep_safe st' self a S si b B NC RS RE RB N i hN30 (by omega) (by omega) hNNC (by rw [← hB] at hr; omega)
-    hRB hRS hRE hS1 hSs hos (by rw [hst.2]; exact ha) (by rw [hst.2]; exact hroots)
-
-theorem batchStages_safe (st : Heap) (self : NTT_Goldilocks) (a : Ptr) (S sInc b NC RS RE RB N : Nat)
-    (hN30 : N ≤ 2 ^ 30) (hbB : b * 2 ^ sInc + 2 ^ sInc ≤ N) (hNNC : N * NC < 2 ^ 64)
-    (hRB : RB ≤ 2 ^ 30) (hRS : RS ≤ RE) (hRE : RE ≤ 30) (hS1 : 1 ≤ S) (hSs : S + sInc ≤ self.s.toNat + 1) (hos : self.s.toNat ≤ 32)
-    (hS30 : S + sInc ≤ 31)
-    (ha : a.off + N * NC ≤ st.ext a.blk) (hroots : self.roots.off + 2 ^ self.s.toNat ≤ st.ext self.roots.blk) :
-    Loop.RangeAll 0 (bv sInc).toNat st
-      (NTT_NTT_iters_loop3 (bv NC) self a (bv S) (bv RS) (bv RE) (bv RB) (bv (2 ^ (RE - RS) - 1)) (bv (2 ^ sInc)) b)
-      (fun si st' => NTT_NTT_iters_loop3.Safe (bv NC) self a (bv S) (bv RS) (bv RE) (bv RB) (bv (2 ^ (RE - RS) - 1))
-        (bv (2 ^ sInc)) b si st') := by
-  rw [bv_toNat sInc (by omega)]
-  refine Loop.RangeAll.of_same (fun i s _ => iters_loop3_same _ _ _ _ _ _ _ _ _ _ i s) (fun si st' _ hsi hst => ?_)
-  exact stage_safe st' self a S si b (2 ^ sInc) (2 ^ (sInc - si - 1)) NC RS RE RB N hN30 (pow_stage sInc si hsi) hbB hNNC
-    hRB hRS hRE hS1 (by omega) hos (by omega) (by rw [hst.2]; exact ha) (by rw [hst.2]; exact hroots)
-
-/-! ### the copies at the end of a pass -/
-
-/-- one row of the transposing copy: row `b*B + x` of `a` to row `x*nB + b` of `a2` -/
-theorem transpose_safe (st : Heap) (a a2 : Ptr) (NC B nB b x N : Nat) (hx : x < B) (hb : b < nB) (hN : B * nB = N)
-    (hNNC : N * NC < 2 ^ 64) (hNC8 : NC * 8 < 2 ^ 64) (ha : a.off + N * NC ≤ st.ext a.blk)
-    (ha2 : a2.off + N * NC ≤ st.ext a2.blk) (hne : a.blk ≠ a2.blk) :
-    NTT_NTT_iters_loop4.Safe (bv NC) a a2 (bv B) (bv nB) b x st := by
-  have h1 : x * nB + b < N := by rw [← hN]; exact mr_lt' x b B nB hx hb
-  have h2 : b * B + x < N := by rw [← hN, Nat.mul_comm B nB]; exact mr_lt' b x nB B hb hx
-  have h3 := mul_le_of_lt _ _ NC h1
-  have h4 := mul_le_of_lt _ _ NC h2
-  have e1 : ((BitVec.ofNat 64 x * bv nB + BitVec.ofNat 64 b) * bv NC).toNat = (x * nB + b) * NC := by
-    show ((bv x * bv nB + bv b) * bv NC).toNat = _
-    rw [bv_mul, bv_add, bv_mul, bv_toNat _ (by omega)]
-  have e2 : ((BitVec.ofNat 64 b * bv B + BitVec.ofNat 64 x) * bv NC).toNat = (b * B + x) * NC := by
-    show ((bv b * bv B + bv x) * bv NC).toNat = _
-    rw [bv_mul, bv_add, bv_mul, bv_toNat _ (by omega)]
-  unfold NTT_NTT_iters_loop4.Safe
+  have hle : j * 2 ^ (self.s.toNat - dp) < 2 ^ self.s.toNat := by
+    have h2 : 2 ^ dp * 2 ^ (self.s.toNat - dp) = 2 ^ self.s.toNat := by
+      rw [← Nat.pow_add]; congr 1; omega
+    have hpos : 0 < 2 ^ (self.s.toNat - dp) := Nat.pow_pos (by omega)
+    calc j * 2 ^ (self.s.toNat - dp) < 2 ^ dp * 2 ^ (self.s.toNat - dp) := Nat.mul_lt_mul_of_pos_right hj hpos
+      _ = 2 ^ self.s.toNat := h2
+  have h3 : 2 ^ self.s.toNat ≤ 2 ^ 32 := Nat.pow_le_pow_right (by omega) hs32
+  have h2 : (bv j <<< (self.s.toNat - dp)).toNat = j * 2 ^ (self.s.toNat - dp) := by
+    rw [BitVec.toNat_shiftLeft, Nat.shiftLeft_eq, bv_toNat _ (by omega)]
+    exact Nat.mod_eq_of_lt (by omega)
+  unfold NTT_root.Safe
   zeta_goal
-  rw [e1, e2, words_bv NC hNC8]
-  exact ⟨RangeOK_add (by omega), RangeOK_add (by omega), Or.inr (Or.inl (fun e => hne e.symm))⟩
+  rw [h1, h2]
+  exact InB_base (by omega)
 
-/-- one row of the reflecting, scaling copy of the last inverse pass (`extend`: factors `r_[dsty]`) -/
-theorem extCopy_safe (st : Heap) (self : NTT_Goldilocks) (a a2 : Ptr) (NC B nB b x N : Nat) (hx : x < B) (hb : b < nB)
-    (hN : B * nB = N) (hNNC : N * NC < 2 ^ 64) (hN30 : N ≤ 2 ^ 30) (ha : a.off + N * NC ≤ st.ext a.blk)
-    (ha2 : a2.off + N * NC ≤ st.ext a2.blk) (hr_ : self.r_.off + N ≤ st.ext self.r_.blk) :
-    NTT_NTT_iters_loop6.Safe (bv N) (bv NC) self a a2 (bv B) (bv nB) b x st := by
-  have h1 : x * nB + b < N := by rw [← hN]; exact mr_lt' x b B nB hx hb
-  have h2 : b * B + x < N := by rw [← hN, Nat.mul_comm B nB]; exact mr_lt' b x nB B hb hx
-  have hd := inttIdx_lt _ _ h1
-  have h3 := mul_le_of_lt _ _ NC hd
-  have h4 := mul_le_of_lt _ _ NC h2
-  have e2 : ((BitVec.ofNat 64 b * bv B + BitVec.ofNat 64 x) * bv NC) = bv ((b * B + x) * NC) := by
-    show ((bv b * bv B + bv x) * bv NC) = _
-    rw [bv_mul, bv_add, bv_mul]
-  unfold NTT_NTT_iters_loop6.Safe
-  zeta_goal
-  simp only [dsty_eq x nB b B N hx hb hN hN30]
-  rw [e2, bv_mul, bv_toNat NC (by
-      have : NC ≤ N * NC := Nat.le_mul_of_pos_left _ (by omega)
-      omega)]
-  refine Loop.RangeAll.of_same (fun k s _ => iters_loop5_same _ _ _ _ _ _ k s) (fun k st' _ hk hst => ?_)
-  unfold NTT_NTT_iters_loop5.Safe
-  zeta_goal
-  have e3 : (bv ((b * B + x) * NC) + BitVec.ofNat 64 k).toNat = (b * B + x) * NC + k := by
-    show (bv _ + bv k).toNat = _
-    rw [bv_add, bv_toNat _ (by omega)]
-  have e4 : (bv (Model.Ntt.inttIdx (x * nB + b) N * NC) + BitVec.ofNat 64 k).toNat = Model.Ntt.inttIdx (x * nB + b) N * NC + k := by
-    show (bv _ + bv k).toNat = _
-    rw [bv_add, bv_toNat _ (by omega)]
-  rw [e3, e4, bv_toNat _ (by omega)]
-  exact ⟨⟨InB_base (by rw [hst.2]; omega), InB_base (by rw [hst.2]; omega)⟩, InB_base (by rw [hst.2]; omega)⟩
+/-! ### one batch of one pass
 
-/-- the same with the factor `powTwoInv[domainPow]` -/
-theorem invCopy_safe (st : Heap) (self : NTT_Goldilocks) (a a2 : Ptr) (NC B nB b x N DP : Nat) (hx : x < B) (hb : b < nB)
-    (hN : B * nB = N) (hNNC : N * NC < 2 ^ 64) (hN30 : N ≤ 2 ^ 30) (hDP : DP < 2 ^ 64) (ha : a.off + N * NC ≤ st.ext a.blk)
-    (ha2 : a2.off + N * NC ≤ st.ext a2.blk) (hpti : self.powTwoInv.off + DP < st.ext self.powTwoInv.blk) :
-    NTT_NTT_iters_loop8.Safe (bv N) (bv NC) self a a2 (bv DP) (bv B) (bv nB) b x st := by
-  have h1 : x * nB + b < N := by rw [← hN]; exact mr_lt' x b B nB hx hb
-  have h2 : b * B + x < N := by rw [← hN, Nat.mul_comm B nB]; exact mr_lt' b x nB B hb hx
-  have hd := inttIdx_lt _ _ h1
-  have h3 := mul_le_of_lt _ _ NC hd
-  have h4 := mul_le_of_lt _ _ NC h2
-  have e2 : ((BitVec.ofNat 64 b * bv B + BitVec.ofNat 64 x) * bv NC) = bv ((b * B + x) * NC) := by
-    show ((bv b * bv B + bv x) * bv NC) = _
-    rw [bv_mul, bv_add, bv_mul]
-  unfold NTT_NTT_iters_loop8.Safe
-  zeta_goal
-  simp only [dsty_eq x nB b B N hx hb hN hN30]
-  rw [e2, bv_mul, bv_toNat NC (by
-      have : NC ≤ N * NC := Nat.le_mul_of_pos_left _ (by omega)
-      omega)]
-  refine Loop.RangeAll.of_same (fun k s _ => iters_loop7_same _ _ _ _ _ _ k s) (fun k st' _ hk hst => ?_)
-  unfold NTT_NTT_iters_loop7.Safe
-  zeta_goal
-  have e3 : (bv ((b * B + x) * NC) + BitVec.ofNat 64 k).toNat = (b * B + x) * NC + k := by
-    show (bv _ + bv k).toNat = _
-    rw [bv_add, bv_toNat _ (by omega)]
-  have e4 : (bv (Model.Ntt.inttIdx (x * nB + b) N * NC) + BitVec.ofNat 64 k).toNat = Model.Ntt.inttIdx (x * nB + b) N * NC + k := by
-    show (bv _ + bv k).toNat = _
-    rw [bv_add, bv_toNat _ (by omega)]
-  rw [e3, e4, bv_toNat _ hDP]
-  exact ⟨⟨InB_base (by rw [hst.2]; omega), InB_base (by rw [hst.2]; omega)⟩, InB_base (by rw [hst.2]; omega)⟩
-
-/-! ### one batch of one pass -/
+  `NTT_NTT_iters_loop9.Safe` is named in the statement (it is a property statement of C18: the body of the OpenMP batch loop);
+  the loops INSIDE the batch — stages, butterflies, columns, the three copies — are handled where they occur, after
+  unfolding, so that nothing here depends on the parameter lists the translator gives their lifted bodies (a hoisted
+  `b * batchSize`, `batchSize >> 1` or `powTwoInv[domainPow]`, swapped declarations, `x * 2` / `x + x`). -/
 
 theorem passBatch_safe (st : Heap) (self : NTT_Goldilocks) (a a2 : Ptr) (N NC K MBP S sInc nB b : Nat) (inverse extend : Bool)
     (sh : IShape st self a a2 N NC K extend) (hS1 : 1 ≤ S) (hSleK : S ≤ K) (hSK : S + sInc ≤ K + 1)
@@ -292,6 +91,9 @@ theorem passBatch_safe (st : Heap) (self : NTT_Goldilocks) (a a2 : Ptr) (N NC K 
   have hN30 : N ≤ 2 ^ 30 := by rw [hN]; exact Nat.pow_le_pow_right (by omega) hK
   have hNNC : N * NC < 2 ^ 64 := by omega
   have hN0 : 0 < N := by rw [hN]; exact Nat.pow_pos (by omega)
+  have hNC64 : NC < 2 ^ 64 := by
+    have : NC ≤ N * NC := Nat.le_mul_of_pos_left _ hN0
+    omega
   have hNC8 : NC * 8 < 2 ^ 64 := by
     have : NC ≤ N * NC := Nat.le_mul_of_pos_left _ hN0
     omega
@@ -306,113 +108,125 @@ theorem passBatch_safe (st : Heap) (self : NTT_Goldilocks) (a a2 : Ptr) (N NC K 
     omega
   have hKS : K - 1 - (S - 1) = K - S := by omega
   have hB64 : 2 ^ sInc < 2 ^ 64 := Nat.pow_lt_pow_right (by omega) (by omega)
-  have hst := batchStages_safe st self a S sInc b NC (S - 1) (K - 1) (2 ^ (S - 1)) N hN30 hbB hNNC
-    (Nat.pow_le_pow_right (by omega) (by omega)) (by omega) (by omega) hS1 (by omega) hs32 (by omega) ha hroots
-  rw [hKS] at hst
+  have hnB64 : nB < 2 ^ 64 := by
+    rw [hnB]; exact Nat.lt_of_le_of_lt (Nat.div_le_self _ _) (by omega)
   unfold NTT_NTT_iters_loop9.Safe
   zeta_goal
-  refine ⟨hst, fun y hy => ?_⟩
+  rw [bv_toNat sInc (by omega)]
+  refine ⟨?_, fun y hy => ?_⟩
+  · -- all stages of the batch
+    refine Loop.RangeAll.of_same (fun i s _ => by loop_same) (fun si st1 _ hsi hst1 => ?_)
+    have hU : 0 < 2 ^ si := Nat.pow_pos (by omega)
+    have hp1 : 2 ^ (S + si) < 2 ^ 64 := Nat.pow_lt_pow_right (by omega) (by omega)
+    have hp2 : 2 ^ si < 2 ^ 64 := Nat.pow_lt_pow_right (by omega) (by omega)
+    have hp3 : 2 ^ si * 2 ≤ 2 ^ sInc := by
+      rw [← Nat.pow_succ]; exact Nat.pow_le_pow_right (by omega) (by omega)
+    unfold_loops
+    zeta_goal
+    simp (disch := bv_side) only [bv_add, bv_mul, bv_shr, bv_toNat, shl_one, Nat.pow_one]
+    refine Loop.RangeAll.of_same (fun i s _ => by loop_same) (fun i st2 _ hi hst2 => ?_)
+    -- one butterfly of one stage: the two rows, the twiddle factor
+    have hS12 := hst1.trans hst2
+    have hi64 : i < 2 ^ 64 := by omega
+    have hbB64 : b * 2 ^ sInc < 2 ^ 64 := by omega
+    have hj0 : b * 2 ^ sInc / 2 + i ≤ 2 ^ 31 := by omega
+    have hRB : 2 ^ (S - 1) ≤ 2 ^ 30 := Nat.pow_le_pow_right (by omega) (by omega)
+    have hj1 : (b * 2 ^ sInc / 2 + i) % 2 ^ (K - S) * 2 ^ (S - 1) + (b * 2 ^ sInc / 2 + i) / 2 ^ (K - S) < 2 ^ 62 := by
+      have h1 : (b * 2 ^ sInc / 2 + i) % 2 ^ (K - S) ≤ 2 ^ 31 := Nat.le_trans (Nat.mod_le _ _) hj0
+      have h2 : (b * 2 ^ sInc / 2 + i) / 2 ^ (K - S) ≤ 2 ^ 31 := Nat.le_trans (Nat.div_le_self _ _) hj0
+      have h3 : (b * 2 ^ sInc / 2 + i) % 2 ^ (K - S) * 2 ^ (S - 1) ≤ 2 ^ 31 * 2 ^ 30 := Nat.mul_le_mul h1 hRB
+      omega
+    have hM : 2 ^ (S + si) / 2 < 2 ^ 64 := by omega
+    have hhalf : 0 < 2 ^ (S + si) / 2 := by
+      have : 2 ^ (S + si) = 2 ^ (S + si - 1) * 2 := by
+        rw [← Nat.pow_succ]; congr 1; omega
+      rw [this, Nat.mul_div_cancel _ (by omega)]
+      exact Nat.pow_pos (by omega)
+    have hiM : i < 2 ^ (sInc - si - 1) * 2 ^ si := by
+      have : 2 ^ sInc / 2 = 2 ^ (sInc - si - 1) * 2 ^ si := by
+        rw [pow_stage sInc si hsi, ← Nat.mul_assoc, Nat.mul_div_cancel _ (by omega)]
+      omega
+    have hrow := row_lt (2 ^ si) (2 ^ (sInc - si - 1)) i hU hiM
+    rw [← pow_stage sInc si hsi] at hrow
+    have hrow2 := mul_le_of_lt _ _ NC
+      (show b * 2 ^ sInc + i / 2 ^ si * (2 ^ si * 2) + i % 2 ^ si + 2 ^ si < N by omega)
+    unfold_loops
+    zeta_goal
+    simp (disch := bv_side) only [bv_add, bv_mul, bv_div, bv_mod, bv_mask, bv_shr, bv_sub, bv_toNat, hKS]
+    refine ⟨root_safe st2 self _ _ (by omega) hs32 (Nat.lt_of_lt_of_le (Nat.mod_lt _ hhalf) (Nat.div_le_self _ _))
+      (by rw [hS12.2]; exact hroots), ?_⟩
+    -- the columns of the butterfly
+    refine Loop.RangeAll.of_same (fun k s _ => by loop_same) (fun k st3 _ hk hst3 => ?_)
+    have hS13 := hS12.trans hst3
+    unfold_loops
+    zeta_goal
+    simp only [bv_add]
+    simp (disch := bv_side) only [bv_toNat]
+    repeat' apply And.intro
+    all_goals inb_close hS13
   have hsame : Heap.Same st y :=
     OInv.rangeM (P := Heap.Same st) _ _ _ _ _ (Heap.Same.refl _)
-      (fun i s hs => OInv.of_same hs (iters_loop3_same _ _ _ _ _ _ _ _ _ _ i s)) y hy
-  rw [bv_toNat _ hB64]
-  refine ⟨fun _ => ?_, fun _ => ⟨fun _ => ?_, fun _ => ?_⟩⟩
-  · refine Loop.RangeAll.of_same (fun x s _ => iters_loop4_same _ _ _ _ _ _ x s) (fun x st' _ hx hst' => ?_)
-    have hs' := hsame.trans hst'
-    exact transpose_safe st' a a2 NC (2 ^ sInc) nB b x N hx hb hBN hNNC hNC8 (by rw [hs'.2]; exact ha)
-      (by rw [hs'.2]; exact ha2) hne
-  · refine Loop.RangeAll.of_same (fun x s _ => iters_loop6_same _ _ _ _ _ _ _ _ x s) (fun x st' _ hx hst' => ?_)
-    have hs' := hsame.trans hst'
-    exact extCopy_safe st' self a a2 NC (2 ^ sInc) nB b x N hx hb hBN hNNC hN30 (by rw [hs'.2]; exact ha)
-      (by rw [hs'.2]; exact ha2) (by rw [hs'.2]; exact hr_ (by assumption))
-  · refine Loop.RangeAll.of_same (fun x s _ => iters_loop8_same _ _ _ _ _ _ _ _ _ x s) (fun x st' _ hx hst' => ?_)
-    have hs' := hsame.trans hst'
-    exact invCopy_safe st' self a a2 NC (2 ^ sInc) nB b x N K hx hb hBN hNNC hN30 (by omega) (by rw [hs'.2]; exact ha)
-      (by rw [hs'.2]; exact ha2) (by rw [hs'.2]; omega)
+      (fun i s hs => OInv.of_same hs (by loop_same)) y hy
+  simp (disch := bv_side) only [bv_toNat]
+  refine ⟨fun _ => ?_, fun _ => ⟨fun hext => ?_, fun _ => ?_⟩⟩
+  · -- the transposing copy: row `b*B + x` of `a` to row `x*nB + b` of `a2`
+    refine Loop.RangeAll.of_same (fun x s _ => by loop_same) (fun x st1 _ hx hst1 => ?_)
+    have hS1 := hsame.trans hst1
+    have h1 : x * nB + b < N := by rw [← hBN]; exact mr_lt' x b (2 ^ sInc) nB hx hb
+    have h2 : b * 2 ^ sInc + x < N := by rw [← hBN, Nat.mul_comm (2 ^ sInc) nB]; exact mr_lt' b x nB (2 ^ sInc) hb hx
+    have h3 := mul_le_of_lt _ _ NC h1
+    have h4 := mul_le_of_lt _ _ NC h2
+    unfold_loops
+    zeta_goal
+    simp only [bv_add, bv_mul]
+    simp (disch := bv_side) only [bv_toNat, Nat.mul_div_cancel, Nat.mul_div_cancel_left]
+    refine ⟨RangeOK_add (by rw [hS1.2]; bv_side), RangeOK_add (by rw [hS1.2]; bv_side), Or.inr (Or.inl (fun e => hne e.symm))⟩
+  · -- the reflecting, scaling copy with the factors `r_[dsty]`
+    refine Loop.RangeAll.of_same (fun x s _ => by loop_same) (fun x st1 _ hx hst1 => ?_)
+    have hS1 := hsame.trans hst1
+    have h1 : x * nB + b < N := by rw [← hBN]; exact mr_lt' x b (2 ^ sInc) nB hx hb
+    have h2 : b * 2 ^ sInc + x < N := by rw [← hBN, Nat.mul_comm (2 ^ sInc) nB]; exact mr_lt' b x nB (2 ^ sInc) hb hx
+    have hd := inttIdx_lt _ _ h1
+    have h3 := mul_le_of_lt _ _ NC hd
+    have h4 := mul_le_of_lt _ _ NC h2
+    have hr_' := hr_ hext
+    unfold_loops
+    zeta_goal
+    simp only [bv_add, bv_mul]
+    simp (disch := bv_side) only [ofU64_bv, intt_idx_gen, toU64_nat, bv_toNat, bv_mul]
+    refine Loop.RangeAll.of_same (fun k s _ => by loop_same) (fun k st2 _ hk hst2 => ?_)
+    have hS2 := hS1.trans hst2
+    unfold_loops
+    zeta_goal
+    simp only [bv_add]
+    simp (disch := bv_side) only [bv_toNat]
+    repeat' apply And.intro
+    all_goals inb_close hS2
+  · -- the same with the factor `powTwoInv[domainPow]` (read in every iteration, or once in front of the loop)
+    have hptiK : self.powTwoInv.off + K < st.ext self.powTwoInv.blk := by omega
+    repeat' apply And.intro
+    try any_goals inb_close hsame
+    refine Loop.RangeAll.of_same (fun x s _ => by loop_same) (fun x st1 _ hx hst1 => ?_)
+    have hS1 := hsame.trans hst1
+    have h1 : x * nB + b < N := by rw [← hBN]; exact mr_lt' x b (2 ^ sInc) nB hx hb
+    have h2 : b * 2 ^ sInc + x < N := by rw [← hBN, Nat.mul_comm (2 ^ sInc) nB]; exact mr_lt' b x nB (2 ^ sInc) hb hx
+    have hd := inttIdx_lt _ _ h1
+    have h3 := mul_le_of_lt _ _ NC hd
+    have h4 := mul_le_of_lt _ _ NC h2
+    unfold_loops
+    zeta_goal
+    simp only [bv_add, bv_mul]
+    simp (disch := bv_side) only [ofU64_bv, intt_idx_gen, toU64_nat, bv_toNat, bv_mul]
+    refine Loop.RangeAll.of_same (fun k s _ => by loop_same) (fun k st2 _ hk hst2 => ?_)
+    have hS2 := hS1.trans hst2
+    unfold_loops
+    zeta_goal
+    simp only [bv_add]
+    simp (disch := bv_side) only [bv_toNat]
+    repeat' apply And.intro
+    all_goals inb_close hS2
 
 /-! ### the pass loop -/
-
-/-- the schedule arithmetic of one iteration of the pass loop on 64-bit words (as in the bridge theorem `pass_step`) -/
-theorem sched_arith (N K res mbp s count : Nat) (hK : K ≤ 30) (hN : N = 2 ^ K) (hs1 : 1 ≤ s) (hsK : s ≤ K) (hm1 : 1 ≤ mbp)
-    (hm : mbp ≤ 64) (hres : res ≤ 64) (hcount : count ≤ 128) :
-    (if ((decide (bv res > 0#64) && (bv count == bv res + 1#64)) && decide (bv mbp > 1#64)) = true
-      then bv mbp - 1#64 else bv mbp) = bv (stepMbp res count mbp) ∧
-    (if decide (bv s + bv (stepMbp res count mbp) ≤ bv K) = true then bv (stepMbp res count mbp) else bv K - bv s + 1#64) =
-      bv (stepInc K s (stepMbp res count mbp)) ∧
-    bv s - 1#64 = bv (s - 1) ∧ bv K - 1#64 = bv (K - 1) ∧
-    I32.toU64 (I32.shl (1 : Int) (bv (s - 1)).toNat) = bv (2 ^ (s - 1)) ∧
-    I32.toU64 (I32.shl (1 : Int) (bv (K - 1) - bv (s - 1)).toNat - (1 : Int)) = bv (2 ^ (K - s) - 1) ∧
-    I32.toU64 (I32.shl (1 : Int) (bv (stepInc K s (stepMbp res count mbp))).toNat) = bv (2 ^ stepInc K s (stepMbp res count mbp)) ∧
-    bv N / bv (2 ^ stepInc K s (stepMbp res count mbp)) = bv (N / 2 ^ stepInc K s (stepMbp res count mbp)) ∧
-    (bv (N / 2 ^ stepInc K s (stepMbp res count mbp))).toNat = N / 2 ^ stepInc K s (stepMbp res count mbp) ∧
-    decide (bv s ≤ bv K) = true ∧
-    (1 ≤ stepMbp res count mbp ∧ stepMbp res count mbp ≤ 64) ∧
-    (s + stepInc K s (stepMbp res count mbp) ≤ K + 1 ∧ stepInc K s (stepMbp res count mbp) ≤ K) := by
-  have hN30 : N ≤ 2 ^ 30 := by rw [hN]; exact Nat.pow_le_pow_right (by omega) hK
-  have hmbp' : (if ((decide (bv res > 0#64) && (bv count == bv res + 1#64)) && decide (bv mbp > 1#64)) = true
-      then bv mbp - 1#64 else bv mbp) = bv (stepMbp res count mbp) := by
-    have c1 : decide (bv res > 0#64) = decide (res > 0) := by
-      rw [decide_eq_decide]; show bv 0 < bv res ↔ _; rw [lt_bv _ _ (by omega) (by omega)]
-    have c2 : (bv count == bv res + 1#64) = decide (count = res + 1) := by
-      rw [bv_one, bv_add, beq_bv _ _ (by omega) (by omega)]
-    have c3 : decide (bv mbp > 1#64) = decide (mbp > 1) := by
-      rw [decide_eq_decide]; show bv 1 < bv mbp ↔ _; rw [lt_bv _ _ (by omega) (by omega)]
-    rw [c1, c2, c3]
-    unfold stepMbp
-    by_cases h : res > 0 ∧ count = res + 1 ∧ mbp > 1
-    · rw [if_pos h]
-      obtain ⟨h1, h2, h3⟩ := h
-      simp only [h1, h2, h3, decide_true, Bool.and_self, if_true]
-      rw [bv_one, bv_sub _ _ (by omega) (by omega)]
-    · rw [if_neg h]
-      have : ((decide (res > 0) && decide (count = res + 1)) && decide (mbp > 1)) = false := by
-        rw [Bool.and_eq_false_iff, Bool.and_eq_false_iff]
-        by_cases h1 : res > 0
-        · by_cases h2 : count = res + 1
-          · right; simp; exact Nat.le_of_not_lt (fun h3 => h ⟨h1, h2, h3⟩)
-          · left; right; simp [h2]
-        · left; left; simp [h1]
-      rw [this]; simp
-  have hm'1 : 1 ≤ stepMbp res count mbp ∧ stepMbp res count mbp ≤ 64 := by
-    unfold stepMbp
-    by_cases h : res > 0 ∧ count = res + 1 ∧ mbp > 1
-    · rw [if_pos h]; omega
-    · rw [if_neg h]; omega
-  refine ⟨hmbp', ?_⟩
-  generalize stepMbp res count mbp = mbp' at hm'1 ⊢
-  have hcs : decide (bv s + bv mbp' ≤ bv K) = decide (s + mbp' ≤ K) := by
-    rw [bv_add, decide_eq_decide, le_bv _ _ (by omega) (by omega)]
-  have hsInc : (if decide (bv s + bv mbp' ≤ bv K) = true then bv mbp' else bv K - bv s + 1#64) = bv (stepInc K s mbp') := by
-    rw [hcs]
-    unfold stepInc
-    by_cases h : s + mbp' ≤ K
-    · simp only [h, decide_true, if_true]
-    · simp only [h, decide_false, if_false, Bool.false_eq_true]
-      rw [bv_sub _ _ hsK (by omega), bv_one, bv_add]
-  have hsInc1 : s + stepInc K s mbp' ≤ K + 1 ∧ stepInc K s mbp' ≤ K := by
-    unfold stepInc
-    by_cases h : s + mbp' ≤ K
-    · rw [if_pos h]; omega
-    · rw [if_neg h]; omega
-  refine ⟨hsInc, ?_⟩
-  generalize stepInc K s mbp' = sInc at hsInc1 ⊢
-  have hrs : bv s - 1#64 = bv (s - 1) := by rw [bv_one, bv_sub _ _ hs1 (by omega)]
-  have hre : bv K - 1#64 = bv (K - 1) := by rw [bv_one, bv_sub _ _ (by omega) (by omega)]
-  have hrb : I32.toU64 (I32.shl (1 : Int) (bv (s - 1)).toNat) = bv (2 ^ (s - 1)) := by
-    rw [bv_toNat _ (by omega), shl_one _ (by omega)]
-  have hrm : I32.toU64 (I32.shl (1 : Int) (bv (K - 1) - bv (s - 1)).toNat - (1 : Int)) = bv (2 ^ (K - s) - 1) := by
-    rw [bv_sub _ _ (by omega) (by omega), bv_toNat _ (by omega)]
-    have : K - 1 - (s - 1) = K - s := by omega
-    rw [this, shl_one_sub _ (by omega)]
-  have hbs : I32.toU64 (I32.shl (1 : Int) (bv sInc).toNat) = bv (2 ^ sInc) := by
-    rw [bv_toNat _ (by omega), shl_one _ (by omega)]
-  have h2s : 2 ^ sInc ≤ N := by rw [hN]; exact Nat.pow_le_pow_right (by omega) hsInc1.2
-  have hnb : bv N / bv (2 ^ sInc) = bv (N / 2 ^ sInc) := bv_div _ _ (by omega) (by omega)
-  have hnbN : (bv (N / 2 ^ sInc)).toNat = N / 2 ^ sInc :=
-    bv_toNat _ (Nat.lt_of_le_of_lt (Nat.div_le_self _ _) (by omega))
-  have hle : decide (bv s ≤ bv K) = true := by
-    rw [decide_eq_true_eq, le_bv _ _ (by omega) (by omega)]; exact hsK
-  exact ⟨hrs, hre, hrb, hrm, hbs, hnb, hnbN, hle, hm'1, hsInc1⟩
 
 section passes
 variable (self : NTT_Goldilocks) (N NC K res : Nat) (inverse extend : Bool)
@@ -429,7 +243,7 @@ theorem pass_safe (X : Heap) (a a2 tmp : Ptr) (sh : IShape X self a a2 N NC K ex
     rwa [le_bv _ _ (by omega) (by have := sh.hK; omega)] at this
   obtain ⟨e1, e2, e3, e4, e5, e6, e7, e8, e9, _, hmb, hsi⟩ := sched_arith N K res mbp s count sh.hK sh.hN hs1 hsK hm1 hm hres hcount
   rw [e1, e2, e3, e4, e5, e6, e7, e8, e9]
-  refine Loop.RangeAll.of_same (fun b st _ => iters_loop9_same _ _ _ _ _ _ _ _ _ _ _ _ _ _ _ _ _ b st) (fun b st _ hb hst => ?_)
+  refine Loop.RangeAll.of_same (fun b st _ => by loop_same) (fun b st _ hb hst => ?_)
   exact passBatch_safe st self a a2 N NC K _ s _ _ b inverse extend (sh.same hst) hs1 hsK hsi.1 rfl hb
 
 /-- the next state of the pass loop: a heap of the same shape, the two buffers exchanged -/
@@ -455,7 +269,7 @@ theorem pass_next (X : Heap) (a a2 tmp : Ptr) (hK : K ≤ 30) (hN : N = 2 ^ K) (
       rw [hr] at h
       have hsame : Heap.Same X y :=
         OInv.rangeM (P := Heap.Same X) _ _ _ _ _ (Heap.Same.refl _)
-          (fun i s hs => OInv.of_same hs (iters_loop9_same _ _ _ _ _ _ _ _ _ _ _ _ _ _ _ _ _ i s)) y hr
+          (fun i s hs => OInv.of_same hs (by loop_same)) y hr
       refine ⟨y, hsame, ?_⟩
       simp only [Option.bind_some, bv_add, bv_one] at h
       injection h with h
